@@ -1,5 +1,6 @@
 import IndicatifModel.Proofs.BarGeoBasic
 import IndicatifModel.Proofs.GenBridgeGeo
+import IndicatifModel.Proofs.Render
 import Mathlib.Tactic.Linarith
 import Mathlib.Tactic.Positivity
 import Mathlib.Algebra.Order.Field.Basic
@@ -377,6 +378,34 @@ theorem C13_wide_bar_fits (pos : ℕ) (len : Option ℕ) (W rest cw n : ℕ) (hc
   · have : (W - rest) % cw = 0 := Nat.mod_eq_zero_of_dvd hd
     omega
   · subst h1; simp; omega
+
+/-- **`{wide_bar}` inside its line** (`Model/Render.lean`, streams C10R / C11R): for every template line `l {wide_bar} r` whose other
+parts are ordinary and every bar whose cells are `cw` columns wide, the line handed to the draw target is the text of `l`, the
+bar of `format_bar(fraction, W − columns(l) − columns(r))`, the text of `r`; it is never wider than the terminal when the rest
+fits, exactly as wide when `cw` divides what is left (always for one-column progress characters) and otherwise short by
+less than one cell -/
+theorem C13_wide_bar_in_line (env : Render.Env) (pos : ℕ) (len : Option ℕ) (cw n : ℕ) (hcw : 1 ≤ cw)
+    (l r : List Template.Part) (al : Template.Align) (t : Bool) (s sa : Option (List Char))
+    (hc : env.custom Render.wideBarKey = none)
+    (hl : ∀ p ∈ l, Render.PlainPart env p) (hr : ∀ p ∈ r, Render.PlainPart env p)
+    (hL : Render.NoNul (l.flatMap (Render.expansion env))) (hR : Render.NoNul (r.flatMap (Render.expansion env)))
+    (hLn : Render.NoNl (l.flatMap (Render.expansion env))) (hRn : Render.NoNl (r.flatMap (Render.expansion env)))
+    (hb : ∀ m, Render.NoNl (env.bar m))
+    (hbar : ∀ m, Pad.cols (env.bar m) = cw * ((formatBar A (fraction A pos len) m cw n).cells n).length)
+    (hfit : Pad.cols (l.flatMap (Render.expansion env)) + Pad.cols (r.flatMap (Render.expansion env)) ≤ env.W)
+    (hsz : (env.W - (Pad.cols (l.flatMap (Render.expansion env)) + Pad.cols (r.flatMap (Render.expansion env)))) / cw ≤ 2 ^ 24) :
+    ∃ line, Render.formatState env (l ++ [.ph Render.wideBarKey al none t s sa] ++ r) = [line] ∧
+      Pad.cols line ≤ env.W ∧ env.W < Pad.cols line + cw ∧
+      (cw ∣ env.W - (Pad.cols (l.flatMap (Render.expansion env)) + Pad.cols (r.flatMap (Render.expansion env))) → Pad.cols line = env.W) ∧
+      (cw = 1 → Pad.cols line = env.W) := by
+  refine ⟨_, Render.formatState_wide_bar_line env l r al t s sa hc hl hr hL hR hLn hRn hb, ?_⟩
+  have hca : ∀ a b : List Pad.G, Pad.cols (a ++ b) = Pad.cols a + Pad.cols b := by
+    intro a b; simp [Pad.cols, List.map_append, List.sum_append]
+  have h := C13_wide_bar_fits I pos len env.W (Pad.cols (l.flatMap (Render.expansion env)) + Pad.cols (r.flatMap (Render.expansion env))) cw n hcw hfit hsz
+  simp only at h
+  rw [hca, hca, hca, hbar]
+  obtain ⟨h1, h2, h3, h4⟩ := h
+  refine ⟨by omega, by omega, fun hd => by have := h3 hd; omega, fun h1' => by have := h4 h1'; omega⟩
 
 /-- **the geometry of the source is the geometry of these theorems.** `ProgressState::fraction` and the arithmetic of
 `ProgressStyle::format_bar`, translated from `src/state.rs` / `src/style.rs` on every run (`tools/rs2lean.py`; `f32` operations
